@@ -102,3 +102,113 @@ class accessor_iter:
             "forall(lambda g: forall(lambda j: ids(self)[src_row(result[g], j)] == ids(self)[src_row(result[g], 0)], "
             "(0, n_of_loader(result[g]))), (0, len(result)))",
     }
+
+
+# ---------------------------------------------------------------------------
+# registration: a tomogram added to a batch never takes over molecules registered earlier
+class TRegistry(TSpec):
+    """BatchLoader whose registry holds k tomograms under arbitrary distinct non-negative integer ids (what is left
+    after filtering molecules / replacing loaders: the ids need not be 0..k-1)"""
+
+    def __init__(self, ks=(0, 1, 2)):
+        self.ks = ks
+
+    def cases(self):
+        return [_TRegistryCase(k) for k in self.ks]
+
+
+class _TRegistryCase(TSpec):
+    def __init__(self, k):
+        self.k, self.value = k, f"{k} registered"
+
+    def fresh(self, name, path):
+        interp = path.interp
+        b = _TBatchLoaderCase(max(self.k, 1)).fresh(name, path)
+        keys = [V.Sym(z3.Int(f"{name}_id{i}")) for i in range(self.k)]
+        for i, k in enumerate(keys):
+            path.assume(k >= 0)
+            for k2 in keys[:i]:
+                path.assume(V.Sym(k.t != k2.t))
+        old = list(b.attrs["_images"].values())
+        b.attrs["_images"] = {k: old[i] for i, k in enumerate(keys)}
+        b.attrs["_ghost_keys"] = list(keys)
+        b.attrs["_ghost_images"] = list(b.attrs["_images"].values())
+        return b
+
+    def src(self, name, model):
+        ids = [int(str(model.get(f"{name}_id{i}", i + 2))) for i in range(self.k)]
+        return f"_make_registry({ids!r})"
+
+
+def registered_before(b, key):
+    """ghost: `key` was one of the ids registered when the call started"""
+    ks = b.attrs["_ghost_keys"]
+    return V.sor(*[V.compare("==", key, k) for k in ks]) if ks else False
+
+
+def kept(b):
+    """every tomogram registered before is still registered under its id, the same array"""
+    out = []
+    for k, img in zip(b.attrs["_ghost_keys"], b.attrs["_ghost_images"]):
+        hit = [v for kk, v in b.attrs["_images"].items() if kk is k]
+        out.append(len(hit) == 1 and hit[0] is img)
+    return all(out)
+
+
+def new_keys(b):
+    return [k for k in b.attrs["_images"] if not any(k is k0 for k0 in b.attrs["_ghost_keys"])]
+
+
+def new_id(b):
+    ks = new_keys(b)
+    return ks[0] if len(ks) == 1 else V.fresh("no_single_new_id", "int")
+
+
+_REPLAY_REG = '''
+import numpy as np
+from acryo import BatchLoader, Molecules
+ok = True
+for ids in ([0, 1], [2, 3], [1, 2], [3, 4, 5], [0, 2]):
+    b = BatchLoader(order=0, scale=1.0, output_shape=(3, 3, 3))
+    for i in ids:
+        b.add_tomogram(np.full((12, 12, 12), 10.0 * (i + 1), np.float32), Molecules(np.full((2, 3), 6.0)), image_id=i)
+    before = dict(b.images)
+    b.add_tomogram(np.full((12, 12, 12), -1.0, np.float32), Molecules(np.full((1, 3), 6.0)))          # automatic id
+    got = [float(a.compute().mean()) for a in b.construct_loading_tasks()]
+    want = [10.0 * (i + 1) for i in ids for _ in range(2)] + [-1.0]
+    same = all(k in b.images and b.images[k] is v for k, v in before.items()) and len(b.images) == len(before) + 1
+    print("registered ids", ids, "+ one automatic: ids now", sorted(b.images), "| earlier tomograms kept:", same,
+          "| molecules load from", got)
+    ok = ok and same and got == want
+print("clause holds natively (a new tomogram gets an unused id; earlier molecules keep their tomogram):", ok)
+print("CONFIRMED" if not ok else "NOT-CONFIRMED"); sys.exit(1 if not ok else 0)
+'''
+
+
+@contract("acryo.loader._batch:BatchLoader.add_tomogram", props=["C03"])
+class add_tomogram:
+    """the tomogram is registered under an id no earlier tomogram has (generated when none is given), every earlier
+    tomogram stays registered under its id, the earlier molecules keep their rows and image ids, and the new molecules
+    follow them, all tagged with the new id; the caller's molecules object is not modified.
+    (An explicit id that is already registered is the caller's request to replace that tomogram: excluded by `requires`.)"""
+    params = dict(self=TRegistry(), image=T.Arr(3, "real"), molecules=__import__("contracts.common", fromlist=["TMolecules"]).TMolecules(features=["f0"]),
+                  image_id=T.OneOf(None, T.Int(lo=0)))
+    requires = ["image_id is None or not registered_before(self, image_id)",
+                # representation invariant of a batch: every molecule's image id is a registered id
+                "forall(lambda i: registered_before(self, ids(self)[i]), (0, self._molecules._pos.shape[0]))"]
+    helpers = dict(registered_before=registered_before, kept=kept, new_keys=new_keys, new_id=new_id, ids=lambda b: b.attrs["_molecules"].attrs["_features"].cols["image-id"])
+    replay = staticmethod(lambda ob, meta, model: _REPLAY_REG)
+    ensures = {
+        "one_new_registration": "len(new_keys(self)) == 1 and self._images[new_id(self)] is image",
+        "new_id_was_unused": "not registered_before(self, new_id(self)) and (image_id is None or new_id(self) == image_id)",
+        "earlier_tomograms_kept": "kept(self)",
+        "earlier_molecules_keep_their_rows":
+            "self._molecules._pos.shape[0] == old(self)._molecules._pos.shape[0] + molecules._pos.shape[0] and "
+            "forall(lambda i: ids(self)[i] == old(self)._molecules._features.cols['image-id'][i] and "
+            "all(self._molecules._pos[i, a] == old(self)._molecules._pos[i, a] for a in range(3)), (0, old(self)._molecules._pos.shape[0]))",
+        "new_molecules_follow_with_the_new_id":
+            "forall(lambda j: ids(self)[old(self)._molecules._pos.shape[0] + j] == new_id(self) and "
+            "all(self._molecules._pos[old(self)._molecules._pos.shape[0] + j, a] == molecules._pos[j, a] for a in range(3)), "
+            "(0, molecules._pos.shape[0]))",
+        "caller_molecules_untouched": "writes_to(molecules) == 0",
+    }
